@@ -62,6 +62,37 @@ def const_eval(v, depth=0):
     return None
 
 
+def resolve(v, depth=0):
+    """Evaluate projections on aggregates and `?` on literal Ok values, bottom-up (after a substitution made them literal)."""
+    if depth > 80 or not isinstance(v, tuple) or not v:
+        return v
+    k = v[0]
+    if k == "proj":
+        base = resolve(v[1], depth + 1)
+        e = v[2]
+        if e[0] == "v" and base[0] == "agg" and base[1] == "adt" and str(base[2]).endswith("::" + str(e[1])):
+            return base                      # downcast to the aggregate's own variant
+        if e[0] == "ix":
+            e = ("ix", resolve(e[1], depth + 1))
+        return proj(base, e)
+    if k == "call" and isinstance(v[3], str):
+        args = tuple(resolve(x, depth + 1) for x in v[4])
+        if common.is_try_branch(v[3]) and args and args[0][0] == "agg" and str(args[0][2]).endswith("Result::Ok"):
+            return ("agg", "adt", "std::ops::ControlFlow::Continue", args[0][3])
+        return ("call", v[1], v[2], v[3], args)
+    if k == "phi":
+        return phi([resolve(x, depth + 1) for x in v[1]])
+    if k == "agg":
+        return ("agg", v[1], v[2], tuple((n, resolve(x, depth + 1)) for n, x in v[3]))
+    if k == "binop":
+        return ("binop", v[1], resolve(v[2], depth + 1), resolve(v[3], depth + 1))
+    if k == "cast":
+        return ("cast", v[1], resolve(v[2], depth + 1)) + tuple(v[3:])
+    if k == "mut":
+        return ("mut", resolve(v[1], depth + 1)) + tuple(v[2:])
+    return v
+
+
 def fold_indices(v, depth=0):
     """Rewrite `base[<constant expression>]` into the constant projection `base[k]`."""
     if depth > 60 or not isinstance(v, tuple) or not v:
@@ -70,7 +101,7 @@ def fold_indices(v, depth=0):
         base = fold_indices(v[1], depth + 1)
         e = v[2]
         if e[0] == "ix":
-            k = const_eval(e[1])
+            k = const_eval(resolve(e[1]))
             if k is not None:
                 return proj(base, ("i", k))
             return proj(base, ("ix", fold_indices(e[1], depth + 1)))
@@ -93,14 +124,14 @@ def fold_indices(v, depth=0):
 
 
 class PoolSelection:
-    def __init__(self, ctx, swap, offer_i, QP):
+    def __init__(self, ctx, swap, offer_i, QP, offer_info=None, allow_helper=True):
         self.ctx, self.P, self.swap, self.offer_i, self.QP = ctx, ctx.P, swap, offer_i, QP
         self.form = None
         self.sel = {}
         self.regions = {}
         self.pos = None
         P, body = self.P, swap.body
-        offer_info = {P_(swap, offer_i, ".info")}
+        offer_info = offer_info or {P_(swap, offer_i, ".info")}
         for g in common.bool_guards(P, swap):
             c = g.cond
             if c[0] == "cmp" and c[1] in ("equal", "eq") and len(c[2]) == 2:
@@ -136,6 +167,38 @@ class PoolSelection:
                 self.pos = pv
                 self.pos_bb = poss[0][0]
                 return
+        # helper form: a private selector `h(.., offer.info, .., pools, ..)` containing the equality branches
+        if allow_helper:
+            from . import roles
+            cands = []
+            for b, p, fr, t in P.calls(swap):
+                if not roles.is_workspace_fn(P, p):
+                    continue
+                h = P.fn(p) or P.fn(generic_path(p))
+                if h is None or h.path == swap.path or h.body is None or h.body.back_edges() or not common._effect_free(P, h, 0):
+                    continue
+                cv = P.val_call(swap, body, b)
+                ai = [i for i, a in enumerate(cv[4]) if set(ctx.roots(a)) == offer_info]
+                pi = [i for i, a in enumerate(cv[4]) if set(ctx.roots(a)) == {QP}]
+                if len(ai) != 1 or len(pi) != 1:
+                    continue
+                try:
+                    inner = PoolSelection(ctx, h, None, P_(h, pi[0]), offer_info={P_(h, ai[0])}, allow_helper=False)
+                except AnchorMissing:
+                    continue
+                if inner.form != "branch":
+                    continue
+                rets = {}
+                for k in (0, 1):
+                    oks = [(eb, v) for (eb, i_, cls, v) in common.exit_sites(P, h) if cls != "err" and eb in inner.regions[k]]
+                    if len(oks) == 1:
+                        rets[k] = oks[0][1]
+                if sorted(rets) == [0, 1]:
+                    cands.append((b, h, cv, inner, rets))
+            if len(cands) == 1:
+                self.form = "helper"
+                self.h_bb, self.h, self.h_call, self.h_inner, self.h_rets = cands[0]
+                return
         raise AnchorMissing("offer/ask are not selected by comparing the named offer asset with pools[0].info and pools[1].info "
                             "(equality branches found for indices %s; no `position` over the pools with that predicate)" % sorted(self.sel))
 
@@ -147,10 +210,16 @@ class PoolSelection:
         if self.form == "branch":
             return P.val_operand_in(self.swap, loc, operand, self.regions[k])
         v = P.val_operand(self.swap, loc, operand, self.swap.body)
+        if self.form == "helper":
+            mapping = {("param", self.h.path, i): a for i, a in enumerate(self.h_call[4])}
+            rk = common.subst_params(self.h_rets[k], mapping)
+            return fold_indices(resolve(replace(v, self.h_call, rk)))
         some_k = ("agg", "adt", "std::option::Option::Some", ((0, ("const", "int", k)),))
-        return fold_indices(replace(v, self.pos, some_k))
+        return fold_indices(resolve(replace(v, self.pos, some_k)))
 
     def describe(self, k):
+        if self.form == "helper":
+            return "%s: offer == pools[%d]" % (self.h.name, k)
         return "offer == pools[%d]" % k if self.form == "branch" else "position(offer) == %d" % k
 
     def rejects_foreign(self):
@@ -163,6 +232,11 @@ class PoolSelection:
                     ok, _ = common.fail_edge_only_errors(P, swap, gb.edge(False))
                     return ok
             return False
+        if self.form == "helper":
+            if not self.h_inner.rejects_foreign():
+                return False
+            pg = common.propagated(P, swap, self.h_bb)
+            return pg is not None and common.fail_edge_only_errors(P, swap, pg[2])[0]
         cands = [self.pos_bb]
         for b, p, fr, t in P.calls(swap):
             if p and b != self.pos_bb:
